@@ -330,6 +330,128 @@ theorem noroute_status (cfg : Cfg) (t : Route.Table) (r : Request) (hs : select 
 
 /-! ### every outcome occurs: a small table -/
 
+/-! ### "the upstream receives the client's … end-to-end headers unchanged", on the unified model -/
+
+open C08 in
+/-- the tokens `protectManagedHeaders` keeps of one `Connection` value are tokens of that value -/
+theorem keepTokens_sub {cfg : C08.Cfg} {v v' : C08.Str} (h : keepTokens cfg v = some v') :
+    ∀ t ∈ splitComma v', t ∈ splitComma v := by
+  unfold keepTokens at h
+  simp only at h
+  split at h
+  · cases h
+  · rename_i hne
+    cases h
+    have hne' : (splitComma v).filter (fun t => !(managedKeys cfg).contains (tokenKey t)) ≠ [] := by
+      intro e; apply hne; rw [e]; rfl
+    have hcf : ∀ t ∈ (splitComma v).filter (fun t => !(managedKeys cfg).contains (tokenKey t)), ',' ∉ t :=
+      fun t ht => Props.C08.splitComma_comma_free _ _ (List.mem_filter.mp ht).1
+    rw [Props.C08.splitComma_joinComma _ hne' hcf]
+    intro t ht
+    exact (List.mem_filter.mp ht).1
+
+open C08 Props.C08 in
+/-- `protectManagedHeaders` only removes tokens: what the `Connection` header names afterwards it named before -/
+theorem hopByHopNames_stepConnection (cfg : C08.Cfg) (h : C08.Headers) (k : C08.Str)
+    (hk : k ∈ hopByHopNames (stepConnection cfg h)) : k ∈ hopByHopNames h := by
+  unfold hopByHopNames at hk ⊢
+  cases hc : vals connection h with
+  | none =>
+    have : stepConnection cfg h = h := by simp [stepConnection, hc]
+    rw [this, hc] at hk
+    simp at hk
+  | some conn =>
+    by_cases hke : (conn.filterMap (keepTokens cfg)).isEmpty = true
+    · have : stepConnection cfg h = del connection h := by simp [stepConnection, hc, hke]
+      rw [this, vals_of_entries_nil (entries_del_self connection h)] at hk
+      simp at hk
+    · have : stepConnection cfg h = put connection (conn.filterMap (keepTokens cfg)) h := by
+        simp [stepConnection, hc, hke]
+      rw [this, vals_of_entries_single (entries_put_self connection _ h)] at hk
+      simp only [Option.getD_some, List.mem_flatMap, List.mem_filterMap] at hk ⊢
+      obtain ⟨v, ⟨v0, hv0m, hv0⟩, t, ht, hkt⟩ := hk
+      exact ⟨v0, hv0m, t, keepTokens_sub hv0 t ht, hkt⟩
+
+open C08 Props.C08 in
+theorem keyfree_of_unmanaged {cfg : C08.Cfg} {k : C08.Str} (hk : k ∉ managedKeys cfg) :
+    (k ≠ forwarded ∧ k ≠ xForwardedFor ∧ k ≠ xForwardedHost ∧ k ≠ xForwardedPort ∧ k ≠ xForwardedPrefix ∧
+     k ≠ xForwardedProto ∧ k ≠ xRealIp) ∧ ClientIPKeyFree cfg k ∧ TLSKeyFree cfg k ∧ RequestIDKeyFree cfg k := by
+  unfold managedKeys at hk
+  simp only [List.mem_append, List.mem_cons, List.mem_map, List.mem_filter, not_or] at hk
+  obtain ⟨⟨h1, h2, h3, h4, h5, h6, h7, _⟩, hcfg⟩ := hk
+  refine ⟨⟨h1, h2, h3, h4, h5, h6, h7⟩, ?_, ?_, ?_⟩
+  · by_cases he : cfg.clientIPHeader.isEmpty = true
+    · left; simp [clientIPApplies, he]
+    · right; intro e; exact hcfg ⟨cfg.clientIPHeader, ⟨by simp, by simpa using he⟩, e⟩
+  · by_cases he : cfg.tlsHeader = []
+    · left; exact he
+    · right; intro e; exact hcfg ⟨cfg.tlsHeader, ⟨by simp, by simpa using he⟩, e⟩
+  · by_cases he : cfg.requestID = []
+    · left; exact he
+    · right; intro e; exact hcfg ⟨cfg.requestID, ⟨by simp, by simpa using he⟩, e⟩
+
+open C08 Props.C08 in
+/-- under a name `addHeaders` does not maintain it changes nothing (the `Connection` step set aside) -/
+theorem addHeadersCore_unmanaged (cfg : C08.Cfg) (strip : C08.Str) (r : C08.Req) (ip : C08.Str) {k : C08.Str}
+    (hk : k ∉ managedKeys cfg) : entries k (addHeadersCore cfg strip r ip) = entries k r.headers := by
+  obtain ⟨⟨h1, h2, h3, h4, h5, h6, h7⟩, hc, ht, _⟩ := keyfree_of_unmanaged hk
+  unfold addHeadersCore
+  rw [stepTLS_other ht, stepForward_other h6 h4 h3 h5 h1, stepWS_other h2, stepRealIp_other h7, stepClientIP_other hc]
+
+open C08 Props.C08 in
+theorem hopByHopNames_congr {h h' : C08.Headers} (e : entries connection h = entries connection h') :
+    hopByHopNames h = hopByHopNames h' := by
+  unfold hopByHopNames; rw [vals_congr e]
+
+open C08 Props.C08 in
+/-- **end_to_end_headers_reach_upstream.** "The upstream chosen for a request receives the client's … end-to-end
+headers unchanged", on the unified model, for every table, configuration and request: when `serveHTTP` forwards, then
+under every header name `k` that
+ * fabio does not maintain (`managedKeys`: Forwarded, X-Forwarded-For, -Host, -Port, -Prefix, -Proto, X-Real-Ip and the
+   configured client-IP, TLS and request-id names — C08's headers),
+ * is not one of `net/http/httputil`'s fixed hop-by-hop names, and
+ * the client's own `Connection` header does not name,
+the header map handed to the handler (`f.headers`: what the websocket path writes to the upstream as it is) and what
+`httputil.ReverseProxy` makes of it on the http path (`C08.reverseProxy`: hop-by-hop removal, then the peer appended to
+X-Forwarded-For) hold exactly the client's lines — the gates (access, authorization: they only judge, obligation
+`gates_only_judge_the_request`), the request-id step, `addHeaders` with its `Connection` repair and the Host override
+change nothing there. `Authorization` and `Cookie` are such names. (`hcm`: the operator did not configure `Connection`
+itself as client-IP / TLS / request-id header.) -/
+theorem end_to_end_headers_reach_upstream (cfg : ServeHTTP.Cfg) (t : Route.Table) (r : Request) {f : Forward}
+    (hf : serveHTTP cfg t r = .forward f) (k : C08.Str)
+    (hk : k ∉ managedKeys cfg.headers) (hfix : k ∉ fixedHopByHop) (hn : k ∉ hopByHopNames r.headers)
+    (hcm : connection ∉ managedKeys cfg.headers) :
+    entries k f.headers = entries k r.headers ∧
+    ∃ ip port, splitHostPort r.remoteAddr = some (ip, port) ∧
+      entries k (reverseProxy ip f.headers) = entries k r.headers := by
+  obtain ⟨_, _, tg, _, _, _, _, _, _, _, ip, port, hsp, hh, _⟩ := forward_fields cfg t r hf
+  have hkc : k ≠ connection := (not_fixed_ne hfix).2
+  -- the request-id step
+  have h0 : ∀ {k' : C08.Str}, k' ∉ managedKeys cfg.headers → entries k' (withRequestID cfg r) = entries k' r.headers := by
+    intro k' hk'
+    obtain ⟨_, _, _, hq⟩ := keyfree_of_unmanaged hk'
+    unfold withRequestID
+    split
+    · rfl
+    · rename_i hne
+      rcases hq with hq | hq
+      · simp [hq] at hne
+      · exact entries_put_ne (fun e => hq e.symm) _ _
+  have hcore : ∀ {k' : C08.Str}, k' ∉ managedKeys cfg.headers →
+      entries k' (addHeadersCore cfg.headers (opt tg "strip") { req08 r with headers := withRequestID cfg r } ip) =
+        entries k' r.headers := fun hk' => (addHeadersCore_unmanaged _ _ _ _ hk').trans (h0 hk')
+  have hmain : entries k f.headers = entries k r.headers := by
+    rw [hh, addHeadersIP_entries hkc]; exact hcore hk
+  refine ⟨hmain, ip, port, hsp, ?_⟩
+  have hx : k ≠ xForwardedFor := (keyfree_of_unmanaged hk).1.2.1
+  rw [reverseProxy_keeps_unnamed ip _ k hx ?_ hfix, hmain]
+  intro hmem
+  apply hn
+  rw [hh] at hmem
+  have := hopByHopNames_stepConnection _ _ _ hmem
+  rwa [hopByHopNames_congr (hcore hcm)] at this
+
+
 namespace Demo
 
 /-- `url.Parse` of the three target URLs of the demo table -/
@@ -389,6 +511,23 @@ example : (match serveHTTP cfg table (req "a.example" "/strip/a") with
     | _ => false) = true := by decide +kernel
 example : (match serveHTTP cfg table (req "a.example" "/ws" (headers := [(C08.upgrade, ["WebSocket".toList])])) with
     | .forward f => decide (f.via = .ws ∧ f.host = "a.example".toList) | _ => false) = true := by decide +kernel
+
+/-- `end_to_end_headers_reach_upstream` on a request through the auth gate: the credentials the gate judged, a cookie
+and a header the client's `Connection` line does NOT name arrive as sent (on both paths); the one it names (`X-Hop`) is
+gone behind the reverse proxy; the hypotheses of the theorem hold for `Authorization` and fail for `X-Hop` -/
+example : (match serveHTTP cfg table (req "a.example" "/auth" (auth := some ("u".toList, "p".toList))
+      (headers := [("Authorization".toList, ["Basic dTpw".toList]), ("Cookie".toList, ["a=b".toList, "c=d".toList]),
+                   ("X-Hop".toList, ["1".toList]), (C08.connection, ["close, x-hop".toList])])) with
+    | .forward f => decide (
+        C08.entries "Authorization".toList (C08.reverseProxy "127.0.0.1".toList f.headers) = [("Authorization".toList, ["Basic dTpw".toList])] ∧
+        C08.entries "Cookie".toList (C08.reverseProxy "127.0.0.1".toList f.headers) = [("Cookie".toList, ["a=b".toList, "c=d".toList])] ∧
+        C08.entries "Authorization".toList f.headers = [("Authorization".toList, ["Basic dTpw".toList])] ∧
+        C08.entries "X-Hop".toList (C08.reverseProxy "127.0.0.1".toList f.headers) = [] ∧
+        "Authorization".toList ∉ C08.managedKeys cfg.headers ∧ "Authorization".toList ∉ C08.fixedHopByHop ∧
+        "Authorization".toList ∉ C08.hopByHopNames [(C08.connection, ["close, x-hop".toList])] ∧
+        "X-Hop".toList ∈ C08.hopByHopNames [(C08.connection, ["close, x-hop".toList])] ∧
+        C08.connection ∉ C08.managedKeys cfg.headers)
+    | _ => false) = true := by decide +kernel
 
 end Demo
 
